@@ -227,7 +227,7 @@ def gen_accuracy_inputs(rng, thorough: bool):
     # float64 reference for float32 runs up to n = 128
     for n in ([24, 48, 96, 128] if not thorough else [20, 24, 32, 48, 64, 96, 128]):
         plan.append(("float32", n, False))
-    reps = 6 if thorough else 3
+    reps = 6 if thorough else 2
     k = 0
     for dtype, n, use_mp in plan:
         u = U[dtype]
@@ -272,7 +272,7 @@ def run(ck: Check) -> None:
     thorough = ck.tier == "thorough"
 
     # ---- 1. the tie ------------------------------------------------------------------------------
-    cases = gen_tie_cases(ck.rng, 3000 if thorough else 400)
+    cases = gen_tie_cases(ck.rng, 3000 if thorough else 320)
     observations = [mfh.observe(c) for c in cases]
     agree_col = [mfh.agree_term(c, o) for c, o in zip(cases, observations)]
     query_col = [mfh.query_term(c, o) for c, o in zip(cases, observations)]
